@@ -354,6 +354,11 @@ fn mutate_in_place(r: &mut Rng, s: &mut Schema, depth: u32) -> Option<&'static s
             };
             Some(if k == 5 { "wrapper-removed" } else { "wrapper-kind" })
         }
+        Schema::Trait(m, _) | Schema::FnClosure(m, _) if r.chance(1, 3) => {
+            // `&dyn Trait` <-> `&mut dyn Trait`, `Fn` <-> `FnMut`
+            *m = !*m;
+            Some("callable-mutability")
+        }
         Schema::Trait(_, def) | Schema::FnClosure(_, def) | Schema::Future(def, _, _, _) => {
             // a change inside the definition of a trait object, closure or future: a method's return type or one
             // of its arguments
